@@ -76,6 +76,8 @@ def root_intact(root):
 
 
 def seg_class(seg):
+    if seg.startswith("@ABS:") or seg.startswith("dev/shm") or "/" in seg:
+        return "absolute-path"
     if seg in TRAVERSAL:
         return "traversal"
     if seg in (".", "", "%2f"):
@@ -250,6 +252,8 @@ def _worker(args):
     try:
         before = tree_hash([fr.outer, fr.absd], fr.root)
         for (method, segs) in cases:
+            # "@ABS:<name>" spells the absolute file-system path of a decoy (it differs per sandbox)
+            segs = tuple((fr.absd if x == "@ABS:absdecoy" else os.path.join(fr.outer, "mid", "sibling") if x == "@ABS:sibling" else fr.outer if x == "@ABS:outer" else x).strip("/") if x.startswith("@ABS:") else x for x in segs)
             path = prefix.rstrip("/") + "/" + "/".join(segs)
             m, target, hdr, body = request_for(method, path, prefix)
 
@@ -311,7 +315,14 @@ def gen_cases(tier):
         for tok in TRAVERSAL[:4]:
             for tail in (("secret.ics",), ("sibling", "member.ics"), ("newdir",), ("mid", "sibling", "member.ics")):
                 deep.append(("user", "calendars", "calendar") + (tok,) * n + tail)
-    return seqs, trav, deep
+    # absolute paths of the decoys behind 0-4 extra leading slashes (POSIX normpath keeps exactly two leading slashes)
+    absolute = []
+    for k in range(0, 5):
+        for tail in (("@ABS:absdecoy", "secret.ics"), ("@ABS:absdecoy",), ("@ABS:sibling", "member.ics"), ("@ABS:outer", "secret.ics"), ("@ABS:absdecoy", "newdir")):
+            absolute.append(("",) * k + tail)
+    for t in TRAVERSAL[:2]:
+        absolute.append((t, t, t, "@ABS:absdecoy", "secret.ics"))
+    return seqs, trav + absolute, deep
 
 
 def run(tier, workers=None):
